@@ -102,7 +102,8 @@ pub struct FieldView<'a> {
 
 impl<'a> FieldView<'a> {
     pub fn wire(&self) -> &'a str {
-        self.rename.unwrap_or(self.rust)
+        // (serde un-raws a raw identifier itself: `r#type` is `type` on the wire)
+        self.rename.unwrap_or_else(|| self.rust.strip_prefix("r#").unwrap_or(self.rust))
     }
 }
 
